@@ -1,6 +1,5 @@
 package vc
 
-import "fmt"
 
 type StaticResult struct {
 	Name   string
@@ -8,7 +7,4 @@ type StaticResult struct {
 	Detail string
 }
 
-func (r *checkRun) staticCheck(name string) ([]*StaticResult, error) {
-	return nil, fmt.Errorf("static check %s not implemented", name)
-}
 
